@@ -202,12 +202,24 @@ func checkC06(sc *Scenario, res *RunResult, t *Truth) []Violation {
 			continue
 		}
 		if c.Err != "" {
-			add("binary-ignores-signal", c.Desc, fmt.Sprintf("%s: %s", c.Desc, c.Err), c.RetSeq)
+			// nobody listens (anymore): the default disposition of SIGTERM / SIGINT / SIGHUP
+			// kills process-compose on the spot - whatever is still alive is orphaned
+			var orphans []string
+			for _, in := range t.LiveAt(c.CallSeq) {
+				if in.Kind == "simproc" {
+					orphans = append(orphans, fmt.Sprintf("%s(pid %d)", in.Replica, in.Pid))
+				}
+			}
+			if len(orphans) > 0 {
+				add("binary-killed-by-signal", "", fmt.Sprintf("%s at t=%v found no handler (%s): process-compose would die with %v still alive", c.Desc, c.CallT, c.Err, orphans), c.RetSeq)
+			}
 			continue
 		}
-		overlap := false // a start-like request still under way relaunches its process afterwards: C03's subject
+		// only the first signal is owed a shutdown (the handler serves one), and a start-like
+		// request that relaunches its process around it is C03's subject
+		overlap := c.Idx > 0
 		for _, c2 := range t.Calls {
-			if (c2.Op == "restart" || c2.Op == "start") && (c2.RetSeq < 0 || c2.RetSeq > c.CallSeq) {
+			if c2.Op == "restart" || c2.Op == "start" {
 				overlap = true
 			}
 		}
@@ -240,7 +252,18 @@ func checkC06(sc *Scenario, res *RunResult, t *Truth) []Violation {
 			sig := effSignal(p)
 			for _, L := range t.ByRep[p.Name] {
 				if L.ExecSeq > shut.CallSeq {
-					continue // launched after the shutdown began: C03's business
+					// launched after the shutdown was requested: nobody asked for it, and it is
+					// still there
+					asked := false
+					for _, c := range t.Calls {
+						if (c.Op == "start" || c.Op == "restart") && c.Arg == p.Name {
+							asked = true
+						}
+					}
+					if !asked && L.ExitSeq < 0 {
+						add("survivor-after-shutdown", "launched-after-request", fmt.Sprintf("%s (pid %d) was launched at t=%v, after the project shutdown had been requested at t=%v, and is still alive at the end", p.Name, L.Pid, L.ExecT, shut.CallT), L.ExecSeq)
+					}
+					continue
 				}
 				ignores := func(in *Inst, s int) bool {
 					scr := scriptOfInst(sc, t, in)
@@ -374,6 +397,15 @@ func genC06(r *R, sc *Scenario, tier string) {
 			root.Children = append(root.Children, ch)
 		}
 		launches := []simos.Script{root, root, root}
+		if r.P(250) {
+			// the first launch ends by itself, so the stop meets a command the restart policy
+			// relaunched
+			first := root
+			first.LifeMs, first.Exit, first.Children = Pick(r, 500, 1500, 3000), 1, nil
+			launches = []simos.Script{first, root, root}
+			p.Restart = Pick(r, "always", "on_failure")
+			p.Backoff = iptr(1)
+		}
 		sc.Scripts[p.Token] = &TokenScript{Launches: launches}
 		if r.P(250) {
 			p.StopCmd = p.Token
@@ -437,7 +469,12 @@ func genC06(r *R, sc *Scenario, tier string) {
 		if r.P(250) {
 			sigAt = Pick(r, 0, 0, 1, 10) // while the commands are being launched
 		}
-		sc.Clients = append(sc.Clients, Client{Name: "os", Ops: []Op{{AtMs: sigAt, Op: "signal", N: Pick(r, 15, 2, 1)}}})
+		sigOps := []Op{{AtMs: sigAt, Op: "signal", N: Pick(r, 15, 2, 1)}}
+		if r.P(400) {
+			// an impatient operator: a second signal while the shutdown is under way
+			sigOps = append(sigOps, Op{AtMs: sigAt + Pick(r, 100, 500, 1500), Op: "signal", N: Pick(r, 15, 2, 1)})
+		}
+		sc.Clients = append(sc.Clients, Client{Name: "os", Ops: sigOps})
 	}
 	sc.Strategy = genStrategy(r)
 	sc.Strategy.StallPermille = 0
